@@ -16,6 +16,7 @@ INVARIANTS
   EmitReplay
   RunnerSelfConsistent
   BuilderSound
+  FuseOrderIndependent
 CONSTRAINT
   FusionShaped
 CHECK_DEADLOCK FALSE
